@@ -181,6 +181,9 @@ def k2(shape):
 
             async def limited_history(self, hashX, *, limit=1000):
                 calls.append(limit)
+                if len(calls) <= shape.get('overtaken', 0):
+                    # a block / mempool notification (touching other script hashes) overtakes this read
+                    await mgr._notify_sessions(mgr.notified_height, {b'\x55' * 11})
                 if limit is None or bool(limit < 0) or bool(limit >= N):
                     return list(full)
                 return full[:int(limit)]
@@ -203,7 +206,9 @@ def k2(shape):
             except smod.RPCError as e:
                 eng.prove(too_large and 'history too large' in e.message,
                           'K2: history refused below the limit', {'signature': 'K2-refused', 'attempt': attempt})
-        eng.prove(len(calls) == 1, 'K2: cache not used', {'signature': 'K2-cache'})
+            if attempt == 'first':
+                first_reads = len(calls)
+        eng.prove(len(calls) == first_reads, 'K2: cache not used', {'signature': 'K2-cache'})
         # subscribe
         try:
             status = _run(s.hashX_subscribe(hx, 'alias'))
@@ -233,6 +238,8 @@ def k2_shapes(tier):
     out = [{'N': 3535, 'lo': 0, 'hi': 350000 + 99 * 2},          # around the floor: limit 3535..3537
            {'N': 3534, 'lo': 340000, 'hi': 350100},
            {'N': 3537, 'lo': 349900, 'hi': 350000 + 99 * 3}]
+    # the first k database reads of the request are each overtaken by a notification
+    out += [{'N': 3536, 'lo': 349900, 'hi': 350000 + 99 * 3, 'overtaken': k} for k in ((3, 4) if tier == 'quick' else (1, 2, 3, 4, 6))]
     if tier == 'thorough':
         out += [{'N': 5000, 'lo': 99 * 4998, 'hi': 99 * 5003}, {'N': 10101, 'lo': 1000000 - 200, 'hi': 1000000 + 200},
                 {'N': 3, 'lo': 0, 'hi': 10 ** 9}]
@@ -261,7 +268,8 @@ KERNELS = [
                     'unsubscribe_hashX'],
            bounds='history length N in {3534, 3535, 3537} (quick) plus {3, 5000, 10101} (thorough); MAX_SEND any '
                   'integer of a window around the values where N meets the derived limit (incl. everything below '
-                  'the 350000 floor)',
+                  'the 350000 floor); the first k reads of a request overtaken by a notification, k in {3, 4} (quick) / '
+                  '{1, 2, 3, 4, 6} (thorough)',
            outside='other history lengths; the DB read itself (C02)',
            assumptions=['DB.limited_history replaced by a stub returning the first limit entries of a fixed history'],
            witnesses=1),
